@@ -11,6 +11,26 @@ NOTE = ("Trusted: Lean 4.33 kernel + axioms propext/Classical.choice/Quot.sound 
         "(real code vs compiled model on the same cases); CPython/stdlib semantics re-expressed in the model. ")
 
 CHECKS = {
+    "C01": dict(
+        text="Theorems C01_final_is_last_accepted / C01_check_only / C01_every_later_run / C01_best_is_last_accepted over the driver model (Lithium.run + interesting + Strategy.main + ReductionIterator): for EVERY strategy script (proposals, direct file writes, failures) and EVERY outcome sequence (incl. raising), after every run() the file equals what it held during the last accepting test. Tied to reducer.py/strategies.py by differential execution of real Lithium.run() on disk (scripted strategy+test, 1-3 runs per object; 7 real strategies x 5 splitters under complete verdict trees and random verdicts) against the model.",
+        note=NOTE + "Candidate construction of the two rewriting strategies is not modelled (iterator-level theorem + monitor).",
+        technique="Lean 4 proof (invariant over the event log, induction) + differential execution of the real driver",
+        ref="§4 C01"),
+    "C02": dict(
+        text="Theorems C02_abort_restores (abort at any test index / strategy failure at any point), C02_hooks (init once before, cleanup once after), C02_kill_durable (inside every test the highest-numbered *-interesting copy, or original, is the last accepted version) over the driver model for every script. Correspondence as C01 plus aborts at every test index with 6 exception classes and injected rmslice failures; thorough tier SIGKILLs real `python -m lithium` children inside test k.",
+        note=NOTE + "Durability of completed writes across SIGKILL is OS behaviour (assumed); exceptions raised by the hooks themselves are out of scope.",
+        technique="Lean 4 proof (invariants Core/Log/Kill over the event log) + differential execution with abort injection",
+        ref="§4 C02"),
+    "C11": dict(
+        text="Theorems C11_reject_original (1 test, 0 writes, status 1), C11_nothing_to_reduce, C11_status (status 0 iff a later candidate was accepted, unless aborted), C11_check_only (1 test, 0 writes, status 0 iff accepted) over the driver model for every script. Correspondence as C01 with writes observed through st_mtime_ns/st_ino.",
+        note=NOTE,
+        technique="Lean 4 proof (case analysis + loop invariant on anySuccess) + differential execution of the real driver",
+        ref="§4 C11"),
+    "C12": dict(
+        text="Theorems C12_tmp_log (temp dir = original + i-interesting/i-boring holding the bytes seen by test i, indices 1..n, test_count = tests run) and C12_no_duplicates (files seen by tests after the first are pairwise distinct) over the driver model for every script and outcome sequence. Correspondence as C01 with proposals that repeat earlier ones or re-split the same bytes; the scripted test records prefix, bytes and directory listing at every call.",
+        note=NOTE + "SHA-512 is modelled as the identity on contents.",
+        technique="Lean 4 proof (Log invariant incl. tried-set = contents tested) + differential execution of the real driver",
+        ref="§4 C12"),
     "C06": dict(
         text="Theorems C06_roundtrip_{line,char,symbol} (every byte string: a successful load writes back the same bytes, atoms non-empty, one flag per atom), C06_no_internal_error, C06_lines_flatten; JS-string/attribute splitters: see level_note. Tied to testcases.py by differential execution of load() vs the model on every concatenation of <= 3/4 entries of a 24-entry adversarial alphabet x splitters plus random strings; monitor (dump-and-compare, also through a re-used object) on all five splitters.",
         note=NOTE + "JS-string and attribute splitters are covered by theorems only once their models exist (C16); until then their round trip rests on the monitor.",
